@@ -4,7 +4,7 @@ CONSTANTS
   Families <- FamLocT
   ModeCounts = {0, 1, 3}
   Refines = {FALSE, TRUE}
-  Widths = {"none", "given"}
+  Widths = {"none", "given", "zero"}
   Rules = {"0.5", "otsu", "mean", "extrema"}
   MinRadii = {"zero", "one", "ninf"}
   RefineArgs = {"none", "auto", "adjust", "autoadjust"}
